@@ -1,5 +1,3 @@
-import os
-
 import vlib
 
 CFG = {
@@ -31,12 +29,10 @@ CFG = {
                   "the element's box - is proved for the exact models and re-checked per case on Go's numbers)",
     "technique": "Coq proof (induction over depth / tree / work list; slab-test monotonicity over Q) + vm_compute correspondence check",
     "design_ref": "DESIGN.md §4 C16, §5 entries 17, 28",
-    # -bvhmin: BVH rays with a non-zero lower bound (fix b2fa3f0 landed).  Streams that show findings not yet
-    # landed / listed are off by default: -rawsphere (fixes/c16-sphere-bounding-box, FailKey
-    # bvh:sphere-box-half-size), -emptystrip (fixes/c16-empty-line-strip-octree, FailKey
-    # oct:index-less-line-strip-panics); C16_EXTRA="-rawsphere -emptystrip" switches them on for one run.
-    "extra_args": ["-bvhmin"] + os.environ.get("C16_EXTRA", "").split(),
-    "n_quick": 150, "n_thorough": 2000,
+    # -bvhmin: BVH rays with a non-zero lower bound (fix b2fa3f0 landed).  The sphere (f622dca) and index-less line
+    # strip (468e9a1) streams are unconditional since those fixes landed.
+    "extra_args": ["-bvhmin"],
+    "n_quick": 150, "n_thorough": 1400,
     "rule": "element sets of points / line strips / triangles (Mesh.OctTree, OctTreeDepth, and OctTreeWithAttributeAndDepth on a "
             "non-position attribute with decoy positions) and plain boxes (trees.NewOctree...) on the integer grid: layouts "
             "uniform-small, uniform-wide, clustered, coincident, lattice (elements on the cells' centre planes), planar, "
@@ -58,8 +54,7 @@ CFG = {
     "trusted": ["the elements' own geometry (scopedLine/scopedTri.ClosestPoint, rayIntersectsTri, Sphere.Hit) is float arithmetic "
                 "executed by Go; its results enter the cases as exact dyadic numbers and the exhaustive scan is computed on the same "
                 "numbers; segment / triangle closest points are additionally compared with the exact rational models (tolerance 1e-12)",
-                "sphere members of the default BVH stream report the box centre +- radius through a wrapper of the harness "
-                "(rendering.Sphere.BoundingBox is half as wide: finding, stream -rawsphere off until fixes/c16-sphere-bounding-box lands)",
+                "sphere members of a BVH are rendering.Sphere values with their own BoundingBox (as wide as the sphere since f622dca)",
                 "queries whose per-element distances are NaN (zero-area triangle / zero-length segment) or whose element point "
                 "leaves the element's box by rounding noise (<= 1e-9 relative) are counted and skipped for ClosestPoint only"],
     "modelled": ["math.Sqrt is monotone (Distance comparisons are modelled on squared distances; exact on the harness' grid)",
